@@ -831,6 +831,11 @@ func (c *FnCtx) mapGet(st *State, mt types.Type, m, k *Term) (val, ok *Term) {
 // height: ghost nesting height of a value (maps and lists strictly above their members) in the current heap.
 func (c *FnCtx) height(st *State, v *Term) *Term {
 	ts := c.eng.ts
+	if v.kind == kApp && v.op == "ite" {
+		// height distributes over a conditional value, so that the member facts (triggered on the height of the
+		// plain member term) are found for the result of a comma-ok lookup
+		return ts.Ite(v.args[0], c.height(st, v.args[1]), c.height(st, v.args[2]))
+	}
 	mt := types.NewMap(types.Typ[types.String], types.NewInterfaceType(nil, nil))
 	mh := c.mapHeaps(st, mt)
 	h := ts.UF("height", SInt, c.heap(st, mh.dom, mh.sdom), c.heap(st, mh.sel, mh.ssel), v)
